@@ -612,6 +612,7 @@ func runC18(c *Check) {
 	c.ruleFreshHandshakeChannel("R7")
 	c.ruleFreshSessionPerConnect("R3", fHash)
 	c.ruleHandshakeCompleteAfterReadyWritten("R8", fHSC, c.P.Field("client", "RemoteClient", "handshakeCompleteChannel"))
+	c.ruleConnectionFlagsReset("R9", map[string]*types.Var{"accepted": fAccepted, "handshakeComplete": fHSC})
 
 	// ---- R5 IsHandshakeType table
 	if fd := findFuncDecl(p, "", "IsHandshakeType"); fd != nil {
